@@ -24,6 +24,9 @@ def plan(exp, tier):
     for ms in MATS:
         matcore.add_mat_struct(u, ms)
         matcore.add_mat_mul(u, ms)
+        # the in-place transposition ("invariant under transposition" is stated for both forms)
+        u.take(ms.path, 'impl<T>%s<T>' % ms.name, 'transpose', C(ret=None, ensures=[
+            '%s == %s' % (ms.at('final(self)', i, j), ms.at('old(self)', j, i)) for i in range(ms.n) for j in range(ms.n)]), mode='G')
         if ms.n < 4:
             matcore.add_determinant(u, ms)
         else:
